@@ -10,14 +10,14 @@ import (
 	"verifharness/ref"
 )
 
-var c02Universe = []string{"/", "/a", "/a/b", "/a/b/c", "/a/c", "/ab", "/b", "/a/bc", "/ab/c", "/a//b"}
+var c02Universe = []string{"/", "/a", "/a/b", "/a/b/c", "/a/c", "/ab", "/b", "/a/bc", "/ab/c", "/a//b", "/a/σ", "/a/ς"}
 
 func init() {
 	register(&mon.Prop{
 		ID:         "C02",
 		Level:      "exploration",
 		Exhaustive: true,
-		Rule: "exhaustive: every assignment of commands from U={/,/a,/a/b,/a/b/c,/a/c,/ab,/b,/a/bc,/ab/c,/a//b (an empty interior segment)} (equal, parent, child, sibling, shared-textual-prefix - with and without further segments - and top relations all present) to the invocation and the n links of an otherwise conforming chain, n<=3 (quick: 10^2+10^3+10^4 = 11100 chains), n<=4 in thorough (+100000), plus seeded random chains of n<=8 links over random commands of depth<=5; a third of the chains go through seal -> container -> reader. " +
+		Rule: "exhaustive: every assignment of commands from U={/,/a,/a/b,/a/b/c,/a/c,/ab,/b,/a/bc,/ab/c,/a//b (an empty interior segment),/a/σ,/a/ς (distinct lower-case letters that Unicode case folding identifies)} (equal, parent, child, sibling, shared-textual-prefix - with and without further segments - and top relations all present) to the invocation and the n links of an otherwise conforming chain, n<=3 (quick: 12^2+12^3+12^4 = 22608 chains), n<=4 in thorough (+248832), plus seeded random chains of n<=8 links over random commands of depth<=5; a third of the chains go through seal -> container -> reader. " +
 			"Oracle: ExecutionAllowed==nil => every link's command is covered by the next one towards the root and the first covers the invoked command (reference segment-prefix model). " +
 			"non-trivial = at least one adjacent pair of different commands; distinct = the command tuple.",
 		Assumptions: []string{
@@ -26,8 +26,8 @@ func init() {
 		},
 		Shards:      shards(8, 16),
 		Run:         runC02,
-		MinEvals:    floor(11000, 110000),
-		MinDistinct: floor(10000, 100000),
+		MinEvals:    floor(22000, 250000),
+		MinDistinct: floor(20000, 240000),
 		RequiredCells: func(string) []string {
 			var cells []string
 			for _, pos := range []string{"inv", "middle", "root"} {
